@@ -63,7 +63,7 @@ vars == <<l, hdr, E, sub, addCall, addRet, enters, exits, enterAt, exitAt, deqd,
 
 NoTune == [n |-> 0, old |-> {}]
 NoCall == [op |-> "none", job |-> 0, qi |-> 0, b |-> 0, n |-> 0, at |-> 0, snap |-> {}, clean |-> FALSE, entered |-> {},
-           solo |-> FALSE, ref |-> "unknown", same |-> FALSE, rankFloor |-> -1, closedBefore |-> FALSE, qclosedBefore |-> FALSE, waitedBefore |-> FALSE]
+           solo |-> FALSE, quiet |-> FALSE, ref |-> "unknown", same |-> FALSE, rankFloor |-> -1, closedBefore |-> FALSE, qclosedBefore |-> FALSE, waitedBefore |-> FALSE]
 NoHdr == [ev |-> "reset", ep |-> "", mode |-> "gated", wk |-> "plain", conc |-> 1, ncpu |-> 1, queues |-> <<>>, jobs |-> <<>>,
           batches |-> <<>>, clients |-> <<>>, expiry |-> 0, ratio |-> 0, ctx |-> FALSE, strategy |-> "rr",
           idgen |-> FALSE, nobind |-> FALSE, family |-> "", consumers |-> 1, preload |-> <<>>]
@@ -146,6 +146,10 @@ SubmitSet(op, job, items) == IF op = "Add" THEN {job} ELSE IF op = "AddAll" THEN
 StateChanging == {"Pause", "PauseAndWait", "Stop", "WaitAndStop", "Restart", "CancelCtx", "Resume"}
 Heavy == {"Stop", "WaitAndStop", "Restart", "Bind", "CancelCtx"}
 Unclean(pc) == IF pc.op = "none" THEN pc ELSE [pc EXCEPT !.clean = FALSE, !.solo = FALSE, !.ref = "unknown"]
+\* control calls that can make the worker dispatch (again): a barrier call overlapped only by other closing calls (Pause, PauseAndWait,
+\* Stop, WaitAndStop, context cancellation) still guarantees at its return that nothing is executing and nothing starts
+Opening == {"Resume", "Restart", "Bind", "TunePool"}
+Unquiet(pc) == IF pc.op = "none" THEN pc ELSE [pc EXCEPT !.quiet = FALSE]
 
 OnCall(e) ==
   LET js == SubmitSet(e.op, e.job, e.items) \cap Jobs
@@ -154,6 +158,7 @@ OnCall(e) ==
              snap |-> {j \in Jobs : sub[j] = "acc"},
              clean |-> (ws = "running" /\ ctlPending = 0 /\ e.op \notin StateChanging),
              solo |-> (ctlPending = 0),
+             quiet |-> (\A c \in Clients : pend[c].op \notin Opening),
              ref |-> IF overlap \/ pcancel THEN "unknown" ELSE ref,
              same |-> (e.op = "TunePool" /\ concNow = {NormConc(e.n)}),
              entered |-> {j \in Jobs : enters[j] > exits[j]},
@@ -163,7 +168,8 @@ OnCall(e) ==
              waitedBefore |-> IF e.job \in Jobs THEN waitRet[e.job] ELSE FALSE]
       dirty == e.op \in StateChanging \/ (e.op = "Bind" /\ ws # "running")
   IN
-  /\ pend' = [c \in Clients |-> IF c = e.p THEN pc ELSE IF dirty THEN Unclean(pend[c]) ELSE pend[c]]
+  /\ pend' = [c \in Clients |-> IF c = e.p THEN pc
+                                ELSE LET u == IF dirty THEN Unclean(pend[c]) ELSE pend[c] IN IF e.op \in Opening THEN Unquiet(u) ELSE u]
   /\ U(R)
   /\ sub' = [j \in Jobs |-> IF j \in js THEN "calling" ELSE sub[j]]
   /\ addCall' = [j \in Jobs |-> IF j \in js THEN l ELSE addCall[j]]
@@ -226,7 +232,7 @@ OnRet(e) ==
            ELSE IF ~alone \/ pcancel THEN "unknown"
            ELSE IF pc.op = "CancelCtx" THEN ws
            ELSE WsOf(e.wss)
-  /\ epoch' = IF pc.op \in {"PauseAndWait", "Stop", "WaitAndStop"} /\ e.res = "nil" /\ alone /\ ~othersResuming THEN "strict"
+  /\ epoch' = IF pc.op \in {"PauseAndWait", "Stop", "WaitAndStop"} /\ e.res = "nil" /\ (alone \/ (pc.quiet /\ \A c \in Clients : c = e.p \/ pend[c].op \notin Opening)) /\ ~othersResuming THEN "strict"
               ELSE IF pc.op = "Pause" /\ e.res = "nil" /\ alone /\ epoch = "open" /\ e.wss = "Paused" /\ ~othersResuming THEN "pause"
               ELSE epoch
   /\ pauseStarts' = IF pc.op = "Pause" THEN 0 ELSE pauseStarts
@@ -388,7 +394,7 @@ C05_Returns == Quiescent => \A c \in Clients : pend[c].op # "none" /\ (\E i \in 
 
 ---- \* C06 barriers
 C06_WUF == IsRet("WUF") /\ R.clean => \A j \in R.snap : SettledStrict(j)
-C06_Drained == E.ev = "ret" /\ E.op \in {"PauseAndWait", "Stop", "WaitAndStop"} /\ E.res = "nil" /\ R.solo =>
+C06_Drained == E.ev = "ret" /\ E.op \in {"PauseAndWait", "Stop", "WaitAndStop"} /\ E.res = "nil" /\ (R.solo \/ R.quiet) =>
                   IF Gated THEN Inflight = {} ELSE R.entered \cap Inflight = {}
 \* at rest no barrier caller sleeps although nothing is in flight (and, on a running worker, nothing is pending)
 C06_Returns == Quiescent => \A c \in Clients :
